@@ -28,8 +28,8 @@ def default_like(t):
 def run(ctx):
     prog = ctx.prog
     am = ctx.am
-    slot_writers = [k for k, kinds in writers_of(prog, LENDACC, "balances") if "assign" in kinds]
-    resetters = [k for k, kinds in writers_of(prog, BALANCE, "*") if "assign" in kinds]
+    resetters, creators_ = balance_resetters(prog, BALANCE)
+    slot_writers = sorted(set([k for k, kinds in writers_of(prog, LENDACC, "balances") if "assign" in kinds]) | set(creators_))
     sorters = [f for f in prog.find_fns({"name": "sort_balances", "crate": "marginfi"})]
     if len(slot_writers) != 1 or len(resetters) != 1 or len(sorters) != 1:
         ctx.missing("C16.R1", "slot creator / balance reset / sort_balances (found %d/%d/%d)" % (len(slot_writers), len(resetters), len(sorters)))
@@ -148,7 +148,8 @@ def run(ctx):
         ctx.inst("C16.R3", "writers/Balance." + fld, not ws, "Balance.%s is never assigned field-wise (only whole-slot construction)" % fld, ws, None)
     builders = sorted(k for k, f in prog.fns.items() if f.info["crate"] in ("marginfi", "marginfi_type_crate") and A.variant_blocks(f, BALANCE, None))
     okb = all(k == foc.key or prog.fns[k].name in ("empty_deactivated", "default", "zeroed", "deserialize_reader", "deserialize", "clone") for k in builders)
-    ctx.inst("C16.R3", "balance-constructors", okb and foc.key in builders, "whole Balance values are constructed only by slot creation and the empty/deactivated constructor", builders, None)
+    # slot creation may build the value (`Balance { .. }`) or fill the free slot field by field (a complete overwrite, see model)
+    ctx.inst("C16.R3", "balance-constructors", okb and (foc.key in builders or foc.key in creators_), "whole Balance values are constructed only by slot creation and the empty/deactivated constructor", builders, None)
     ws = [k for k, kinds in writers_of(prog, BALANCE, "active") if "assign" in kinds]
     sa_callers = sorted({k.split("::")[-1] for k, f in prog.fns.items() for c in f.calls() if c.key in ws})
     ctx.inst("C16.R3", "writers/Balance.active", len(ws) <= 1 and set(sa_callers) <= {"empty_deactivated"}, "Balance.active is flipped only through the deactivated constructor", "writers=%s callers=%s" % (ws, sa_callers), None)
